@@ -1,5 +1,6 @@
 import MdsVerif.Proofs.Lcs
 import MdsVerif.Proofs.EditScript
+import MdsVerif.Proofs.SpecExec
 /-!
 # C11 — `slice.EditScript` is a valid, minimal, canonical edit script
 
@@ -128,6 +129,20 @@ theorem canonical_adjacent (es : List (Edit α)) (hc : Canonical es) (i : Nat) (
 /-- **editScript_empty_iff**: the script is empty exactly when `lhs = rhs`. -/
 theorem editScript_empty_iff (lhs rhs : List α) : editScript lhs rhs = [] ↔ lhs = rhs :=
   (editScript_spec lhs rhs).2.2.2
+
+/-! ## the driver's verdict functions are these specifications
+
+The spec verdict of stream `C11` judges the *implementation's* script with the executable
+checkers `validB`, `canonicalB`, `emitted` and the table-based optimum `lcsLenDP`. -/
+
+/-- the optimum computed by the driver (full-table DP) is the textbook recursion -/
+theorem lcsLenDP_eq (x y : List α) : lcsLenDP x y = lcsLen x y :=
+  MdsVerif.Proofs.SpecExec.lcsLenDP_eq x y
+
+/-- the executable validity and canonicity checks decide `Valid` and `Canonical` -/
+theorem checkers_decide_spec (es : List (Edit α)) (lhs rhs : List α) :
+    (validB es lhs rhs = true ↔ Valid es lhs rhs) ∧ (canonicalB es = true ↔ Canonical es) :=
+  ⟨MdsVerif.Proofs.SpecExec.validB_iff es lhs rhs, MdsVerif.Proofs.SpecExec.canonicalB_iff es⟩
 
 /-! ### non-vacuity -/
 
